@@ -846,6 +846,100 @@ func (c *Ctx) mainFatal() {
 		}
 	})
 	c.Check(len(starts) == 1, "startup-all-or-nothing", "cmd/helios.main/single-start", p.Pos(mainFn.Pos()), "the listener is started at exactly one site", fmt.Sprintf("%d start sites", len(starts)))
+	c.listenErrorReported(starters)
+}
+
+// listenErrorReported: the proxy's own listener failing to start (port in use, privileged port,
+// unreadable key pair) must stop the process: the error every ListenAndServe/ListenAndServeTLS call
+// of the starter functions returns flows — through φs and local variables — into a channel send (main
+// receives it and calls Fatal) or into a Fatal log chain.  An error that is assigned and never read
+// leaves the process running with metrics, admin API and health checks but no proxy.
+func (c *Ctx) listenErrorReported(starters map[*ssa.Function]bool) {
+	p := c.P
+	rule := "listen-error-reported"
+	n := 0
+	for _, fn := range p.Funcs {
+		if !starters[outermost(fn)] {
+			continue
+		}
+		for _, ci := range callsIn(fn) {
+			call, isCall := ci.(*ssa.Call)
+			if !isCall {
+				continue
+			}
+			switch CalleeName(ci) {
+			case "(*net/http.Server).ListenAndServe", "(*net/http.Server).ListenAndServeTLS", "(*net/http.Server).Serve", "(*net/http.Server).ServeTLS":
+			default:
+				continue
+			}
+			n++
+			construct := p.FuncKey(outermost(fn)) + "/" + strings.TrimPrefix(CalleeName(ci), "(*net/http.Server).")
+			reported := false
+			seen := map[ssa.Value]bool{}
+			var follow func(v ssa.Value, d int)
+			follow = func(v ssa.Value, d int) {
+				if v == nil || seen[v] || d > 12 || reported {
+					return
+				}
+				seen[v] = true
+				refs := v.Referrers()
+				if refs == nil {
+					return
+				}
+				for _, r := range *refs {
+					switch x := r.(type) {
+					case *ssa.Send:
+						if x.X == v {
+							reported = true
+						}
+					case *ssa.Phi:
+						follow(x, d+1)
+					case *ssa.MakeInterface:
+						follow(x, d+1)
+					case *ssa.ChangeInterface:
+						follow(x, d+1)
+					case *ssa.Store:
+						if a, ok := x.Addr.(*ssa.Alloc); ok && x.Val == v {
+							if ar := a.Referrers(); ar != nil {
+								for _, l := range *ar {
+									if u, ok := l.(*ssa.UnOp); ok && u.Op == token.MUL {
+										follow(u, d+1)
+									}
+								}
+							}
+						}
+					case *ssa.Call:
+						cn := CalleeName(x)
+						if cn == "(*github.com/rs/zerolog.Event).Err" {
+							// …Fatal().Err(err).Msg(…): the event must be a Fatal one
+							if strings.Contains(p.Desc(x.Call.Args[0], nil), "Logger).Fatal(") {
+								reported = true
+							}
+						}
+						if cn == "fmt.Errorf" || cn == "errors.Join" {
+							follow(x, d+1)
+						}
+					case *ssa.Return:
+						// handed to the caller: the callers' use of the result
+						h := x.Parent()
+						for _, caller := range p.Funcs {
+							for _, c2 := range callsIn(caller) {
+								if StaticFn(c2) == h {
+									if cv, ok := c2.(*ssa.Call); ok {
+										follow(cv, d+1)
+									}
+								}
+							}
+						}
+					}
+				}
+			}
+			follow(call, 0)
+			c.Check(reported, rule, construct, p.InstrPos(ci), "the listener's error reaches a channel send / Fatal",
+				"the error returned by the proxy's listener is never delivered to main (it is assigned to a variable that is not read, or dropped): when the port cannot be bound the process keeps running with its side servers and health checks but serves no traffic, instead of failing with a clear error")
+		}
+	}
+	c.Floor(rule, n, 2, "listener start calls of the proxy server")
 }
 
 // factoriesFail: every plugin factory returns a non-nil error when an option read fails.
